@@ -75,7 +75,9 @@ class StringSerializableRegistry:
         """
 
         def decorator(cls):
-            self.types.append(cls)
+            if cls not in self.types:
+                # A class is listed once however often it is registered (remove() takes out one occurrence)
+                self.types.append(cls)
             for t in replace_types:
                 self.replaces.add((t, cls))
             return cls
